@@ -33,16 +33,16 @@ import (
 )
 
 type c34Case struct {
-	N       int     `json:"n"`      // transactions in the block, index 0 is the miner transaction
+	N       int      `json:"n"`      // transactions in the block, index 0 is the miner transaction
 	Groups  [][2]int `json:"groups"` // [start index, size], ascending, disjoint, start >= 1
-	Pattern string  `json:"pattern"`
-	Present []bool  `json:"present"` // per unit (in block order, miner excluded): in the pool when the light block arrives
-	Arrive  string  `json:"arrive"`  // before | after | never  (relative to the pending timeout)
-	Batches int     `json:"batches"` // the missing units arrive in this many steps, one background pass after each
-	Idle    int     `json:"idle"`    // background passes before anything arrives
-	Drive   string  `json:"drive"`   // direct | loop : how the timeout is observed
-	Height  int64   `json:"height"`
-	Salt    int     `json:"salt"`
+	Pattern string   `json:"pattern"`
+	Present []bool   `json:"present"` // per unit (in block order, miner excluded): in the pool when the light block arrives
+	Arrive  string   `json:"arrive"`  // before | after | never  (relative to the pending timeout)
+	Batches int      `json:"batches"` // the missing units arrive in this many steps, one background pass after each
+	Idle    int      `json:"idle"`    // background passes before anything arrives
+	Drive   string   `json:"drive"`   // direct | loop : how the timeout is observed
+	Height  int64    `json:"height"`
+	Salt    int      `json:"salt"`
 }
 
 type c34Unit struct {
